@@ -31,6 +31,11 @@ def hist_configs(tier):
     c.update({"AllowReopen": True, "MaxDo": 2, "MaxSteps": 5, "LeafKinds": {"W", "CF", "CD", "MV"},
               "Limits": {100}})
     out.append(("reopen-exhaustive-2do-5calls", c, "export", None))
+    cf = c11.base_constants()
+    cf.update({"AllowReopen": True, "AllowSelective": False, "FileNames": {"x", "n"}, "RootOnly": {"n"},
+               "ExclusivePairs": tlc.Sub("MCExclusivePairs"), "InitTreesH": tlc.Sub("MCInitTreesH4"),
+               "DirNames": {"e"}, "LeafKinds": {"CF", "CD", "MV"}, "MaxDo": 4, "MaxSteps": 5, "Limits": {100}})
+    out.append(("reopen-file-then-folder-same-path", cf, "export", None))
     cs = c11.base_constants()
     cs.update({"AllowReopen": True, "AllowPairs": True, "MaxDo": 5, "MaxSteps": 10, "Limits": {3, 100},
                "InitTreesH": tlc.Sub("MCInitTreesH")})
